@@ -165,3 +165,96 @@ Proof.
   intros H. destruct (quant_ok v H) as [q [Q1 Q2]]. exists q. split; [exact Q1|].
   unfold enc, enc_text, root_tree. rewrite Q2. reflexivity.
 Qed.
+
+(* ---- the hypothesis as a computable test (used to count, per run, how many of the generated
+   databases are inside the theorem's domain) ---- *)
+From TT Require Import Base.Civil Proofs.C10_real Proofs.Leaf_proofs.
+Definition printable_b (dp : nat) (x : f64) : bool :=
+  match decomp x with
+  | Some (_, m, e) => (0 <=? scaled_q m e dp) && (scaled_q m e dp <? 2 ^ 51)
+  | None => false
+  end.
+Lemma printable_b_ok dp x : printable_b dp x = true -> printable dp x.
+Proof.
+  unfold printable_b. destruct (decomp x) as [[[s m] e]|] eqn:E; [|discriminate]. intros H.
+  apply andb_true_iff in H. destruct H as [H1 H2]. apply Z.leb_le in H1. apply Z.ltb_lt in H2.
+  apply (printable_of_decomp dp x s m e E). lia.
+Qed.
+Definition date_ok_b (t : Z) : bool :=
+  (first_day * ns_per_day <=? t) && (t <? (first_day + Z.of_nat n_days) * ns_per_day).
+Definition dur_ok_b (d : Z) : bool := (0 <=? d) && (d <? 2 ^ 62).
+Definition leaf_dom_b (l : leaf) : bool :=
+  match l with
+  | LvStr t => forallb valid_char t
+  | LvInt _ | LvBool _ | LvPos _ _ _ | LvThresh _ | LvFg _ _ => true
+  | LvF dp x => Nat.leb dp 22 && printable_b dp x
+  | LvDur d => dur_ok_b d
+  | LvLapDate t | LvFixDate t => date_ok_b t
+  | LvCoord la lo => printable_b 8 la && printable_b 8 lo
+  | LvAltCoord la lo al => printable_b 8 la && printable_b 8 lo && printable_b 1 al
+  | LvRel dist off => printable_b 1 dist && dur_ok_b off
+  | LvInter l => forallb (fun p => dur_ok_b (fst p) && printable_b 1 (snd p)) l
+  | LvGear _ r => printable_b 6 r
+  | LvTyre _ _ sr _ => (match sr with [] => false | _ => true end) && negb (has_ws sr) && forallb valid_char sr
+  | LvTags l => forallb (fun t => forallb valid_char t) l
+  | LvSync _ => false
+  end.
+Lemma dur_ok_b_ok d : dur_ok_b d = true -> 0 <= d < 2 ^ 62.
+Proof. unfold dur_ok_b. intros H. apply andb_true_iff in H. destruct H as [H1 H2]. apply Z.leb_le in H1. apply Z.ltb_lt in H2. lia. Qed.
+Lemma leaf_dom_b_ok l : leaf_dom_b l = true -> leaf_dom l.
+Proof.
+  destruct l; cbn [leaf_dom_b leaf_dom]; intros H; try exact I; try discriminate; try exact H;
+    repeat match goal with H : _ && _ = true |- _ => apply andb_true_iff in H; destruct H end;
+    repeat match goal with
+           | H : printable_b _ _ = true |- _ => apply printable_b_ok in H
+           | H : dur_ok_b _ = true |- _ => apply dur_ok_b_ok in H
+           | H : Nat.leb _ _ = true |- _ => apply Nat.leb_le in H
+           end; auto.
+  - unfold date_ok_b in H. apply andb_true_iff in H. destruct H as [H1 H2]. apply Z.leb_le in H1. apply Z.ltb_lt in H2. unfold date_ok. lia.
+  - unfold date_ok_b in H. apply andb_true_iff in H. destruct H as [H1 H2]. apply Z.leb_le in H1. apply Z.ltb_lt in H2. unfold date_ok. lia.
+  - rewrite forallb_forall in H. apply Forall_forall. intros p Hp. specialize (H p Hp). apply andb_true_iff in H. destruct H as [H1 H2].
+    split; [apply dur_ok_b_ok; exact H1|apply printable_b_ok; exact H2].
+  - split; [destruct sr; [discriminate|discriminate]|]. split; [destruct (has_ws sr); [discriminate|reflexivity]|assumption].
+  - rewrite forallb_forall in H. apply Forall_forall. exact H.
+Qed.
+Definition keeps_b (l : leaf) : bool := match quant_leaf l with Ok l' => negb (leaf_empty l') | _ => true end.
+Lemma keeps_b_ok l : keeps_b l = true -> keeps l.
+Proof. unfold keeps_b, keeps. intros H l' E. rewrite E in H. destruct (leaf_empty l'); [discriminate|reflexivity]. Qed.
+
+Fixpoint val_ok_b (v : val) : bool :=
+  match v with
+  | VLeaf l => leaf_dom_b l
+  | VStruct fields =>
+      (fix go (fs : list (string * mode * field)) : bool :=
+         match fs with
+         | [] => true
+         | (n, m, f) :: r => field_ok_b m f && go r
+         end) fields
+  end
+with field_ok_b (m : mode) (f : field) : bool :=
+  match f with
+  | FOne (VLeaf l) => if is_omit m && leaf_empty l then true else leaf_dom_b l && (negb (is_omit m) || keeps_b l)
+  | FOne v' => val_ok_b v'
+  | FPtr None => true
+  | FPtr (Some v') => val_ok_b v'
+  | FMany l => (fix all (l : list val) : bool := match l with [] => true | x :: t => val_ok_b x && all t end) l
+  end.
+
+Lemma val_ok_b_ok : forall v, val_ok_b v = true -> val_ok v
+with field_ok_b_ok : forall f m, field_ok_b m f = true -> field_ok m f.
+Proof.
+  - intros [l|fields] H; cbn [val_ok_b val_ok] in *; [apply leaf_dom_b_ok; exact H|].
+    induction fields as [|[[n m] f] r IH]; [exact I|]. apply andb_true_iff in H. destruct H as [H1 H2].
+    split; [apply field_ok_b_ok; exact H1|apply IH; exact H2].
+  - intros [v|[v|]|l] m H; cbn [field_ok_b field_ok] in *.
+    + pose proof (val_ok_b_ok v) as IHv. destruct v as [l|fields].
+      * destruct (is_omit m && leaf_empty l); [exact I|]. apply andb_true_iff in H. destruct H as [H1 H2].
+        split; [apply leaf_dom_b_ok; exact H1|]. intros Hm. rewrite Hm in H2. cbn [negb orb] in H2. apply keeps_b_ok. exact H2.
+      * apply IHv. exact H.
+    + apply val_ok_b_ok. exact H.
+    + exact I.
+    + induction l as [|x t IH]; [exact I|]. apply andb_true_iff in H. destruct H as [H1 H2]. split; [apply val_ok_b_ok; exact H1|apply IH; exact H2].
+Qed.
+
+Corollary reencode_identical_b v : val_ok_b v = true -> exists q, quant v = Ok q /\ enc q = enc v.
+Proof. intros H. apply reencode_identical, val_ok_b_ok, H. Qed.
